@@ -13,6 +13,7 @@ import (
 	"testing"
 	"time"
 
+	"google.golang.org/protobuf/proto"
 	"github.com/milvus-io/milvus/pkg/mq/msgstream"
 
 	"github.com/zilliztech/milvus-cdc/core/api"
@@ -32,11 +33,23 @@ func c07SchedScenario(nCallers int, channels []string) *sched.Scenario {
 	return &sched.Scenario{Name: name, Run: func(t *testing.T, ctl *sched.Ctl) sched.Outcome {
 		fd := &fakeDown{}
 		failed := map[string]bool{}
-		fd.gate = func(kind string, p interface{}) {}
+		pristine := map[string][]msgstream.TsMsg{}
+		var byteViol []sched.Violation
+		// what the downstream reads: the request may be serialized as soon as the call is made (gate) or as late as just
+		// before it answers (a pooled client that has to be dialled first, a retry of the RPC) - the bytes must decode to
+		// the caller's own pack at both moments
+		readBytes := func(when string, rp *api.ReplicateMessageParam) {
+			if msg := c07DecodesTo(rp, pristine[rp.ChannelName]); msg != "" {
+				byteViol = append(byteViol, sched.Violation{Sig: "C07/sched/foreign-bytes/" + when, Detail: fmt.Sprintf("downstream call on %s, read %s: %s", rp.ChannelName, when, msg)})
+			}
+		}
+		fd.gate = func(kind string, p interface{}) { readBytes("at-call", p.(*api.ReplicateMessageParam)) }
 		fd.answer = func(kind string, p interface{}) error {
 			rp := p.(*api.ReplicateMessageParam)
 			// scheduling + fault point: the sender goroutine of this channel is about to get the downstream's answer
-			if ctl.Choose("down:"+rp.ChannelName, "answer", false, 2, 1) == 1 {
+			alt := ctl.Choose("down:"+rp.ChannelName, "answer", false, 2, 1)
+			readBytes("before-answer", rp)
+			if alt == 1 {
 				failed[fmt.Sprintf("%s/%d", rp.ChannelName, rp.EndTs)] = true
 				return c07ErrDown
 			}
@@ -51,6 +64,7 @@ func c07SchedScenario(nCallers int, channels []string) *sched.Scenario {
 			ts := uint64(7000 + i)
 			packs[i] = dmlPack(ts, buildDML("Insert", opVals{DB: "db1", Coll: "a", Part: "p", TS: ts}, i+1), buildDML("TimeTick", opVals{TS: ts}, 0))
 			ch := channels[i]
+			pristine[ch] = []msgstream.TsMsg{buildDML("Insert", opVals{DB: "db1", Coll: "a", Part: "p", TS: ts}, i+1), buildDML("TimeTick", opVals{TS: ts}, 0)}
 			for _, p := range packs[i].EndPositions {
 				p.ChannelName = ch
 			}
@@ -70,6 +84,7 @@ func c07SchedScenario(nCallers int, channels []string) *sched.Scenario {
 			return true
 		})
 		var out sched.Outcome
+		out.Violations = append(out.Violations, byteViol...)
 		var sum []string
 		for i, c := range calls {
 			key := fmt.Sprintf("%s/%d", channels[i], packs[i].EndTs)
@@ -139,4 +154,25 @@ func TestVerifC07Sched(t *testing.T) {
 	}
 	schedReport(res, e, "C07")
 	res.Rule = "sched engine: 2 and 3 concurrent HandleReplicateMessage callers on distinct channels; scheduling points = caller start (free) and the downstream answer of each channel's sender goroutine (2 alternatives: ok | error, the error costs one deviation); all schedules within the deviation bound; oracle per execution: every caller gets its own checkpoint or its own error, every pack reaches the downstream exactly once; non-trivial = executions in which at least two downstream calls happened"
+}
+
+// c07DecodesTo decodes the serialized messages of a downstream call the way the proxy does and compares them with the
+// (pristine copies of the) messages of the pack that was handed to the writer for that channel.
+func c07DecodesTo(rp *api.ReplicateMessageParam, want []msgstream.TsMsg) string {
+	if len(rp.MsgsBytes) != len(want) {
+		return fmt.Sprintf("%d serialized messages, the pack has %d", len(rp.MsgsBytes), len(want))
+	}
+	for i, b := range rp.MsgsBytes {
+		got, err := decodeLikeProxy(b)
+		if err != nil {
+			return fmt.Sprintf("message %d is undecodable: %v", i, err)
+		}
+		if got.Type() != want[i].Type() {
+			return fmt.Sprintf("message %d decodes to %v, the pack has %v", i, got.Type(), want[i].Type())
+		}
+		if !proto.Equal(c07Req(got), c07Req(want[i])) {
+			return fmt.Sprintf("message %d decodes to %v, the pack message is %v", i, c07Req(got), c07Req(want[i]))
+		}
+	}
+	return ""
 }
